@@ -33,11 +33,12 @@ m=stable-p
 print('suite-ok' if not m else 'suite-BROKEN missing=%d %s'%(len(m),sorted(m)[:3]))")
 echo "VALIDATE $PROP/$VAR: build=[${build}] clean_demo=[${clean_demo}] patched_demo=[${patched_demo}] ${suite}"
 cd /verif
-# apply to /repo
-if ! git -C /repo apply "$D/patch.diff" 2>/dev/null; then git -C /repo apply -3 "$D/patch.diff" || { echo "cannot apply to /repo"; exit 3; }; fi
+# run the checks against the patched scratch worktree (never against /repo, which other runs may be using)
+export VERIF_REPO=$W VERIF_BUILD_DIR=/tmp/seedbuild.$$ VERIF_OUT_DIR=/tmp/seedout.$$
+mkdir -p $VERIF_BUILD_DIR
 for p in $PROPS; do
   out=$(./check $p quick 2>&1); rc=$?
   nviol=$(echo "$out" | grep -c '^VIOLATION')
   echo "CHECK $PROP/$VAR with $p: exit=$rc violations=$nviol :: $(echo "$out" | grep -A2 '^VIOLATION' | grep 'what:' | head -2 | cut -c1-260)"
 done
-git -C /repo checkout -- . ; git -C /repo reset -q; git -C /repo status --short | head -3
+rm -rf $VERIF_BUILD_DIR $VERIF_OUT_DIR
